@@ -61,6 +61,10 @@ type DagSpec struct {
 	MuteTo   float64
 	// Skew: creators are not equally active (some create several times more events)
 	Skew bool
+	// LateStart: one creator records nothing before LateFrom (fraction of the DAG)
+	// and its first event then has neither self-parent nor other-parent
+	LateStart bool
+	LateFrom  float64
 }
 
 func (e *DagEvent) fresh() *hg.Event {
@@ -138,8 +142,15 @@ func genDag(rng *rand.Rand, seed int64, sp DagSpec) *Dag {
 		}
 		return sp.N - 1
 	}
+	late := -1
+	if sp.LateStart && sp.N >= 4 {
+		late = rng.Intn(sp.N)
+	}
 	for len(d.Events) < sp.Events {
 		a := pick()
+		if a == late && float64(len(d.Events))/float64(sp.Events) < sp.LateFrom {
+			continue
+		}
 		other := ""
 		if sp.N > 1 {
 			b := pick()
@@ -210,8 +221,11 @@ func genDag(rng *rand.Rand, seed int64, sp DagSpec) *Dag {
 				}
 			}
 		}
+		if a == late && seqs[a] < 0 {
+			other = "" // the late starter's first event has no parent at all
+		}
 		var txs [][]byte
-		if rng.Float64() < sp.TxProb {
+		if rng.Float64() < sp.TxProb || (a == late && seqs[a] < 0) {
 			k := 1 + rng.Intn(3)
 			for j := 0; j < k; j++ {
 				txc++
